@@ -294,7 +294,7 @@ def panic_rule(repo, mir, reach, res, rule="PANIC"):
                     held, how = guard_held(repo, k[0], int(w.rsplit(":", 1)[1]))
                     res.check(held, rule, key_str(k) + ":guard-held", how, w)
     for k, r in rows.items():
-        if k not in groups:
+        if k not in groups and not discharged.get(k):
             res.advisory(f"panic table row no longer matches any site (stale): {k[0]} {k[1]} {k[3]}")
     adds = [i for i in inv if i.get("mech")]
     classes["ARITH"] += len(adds)
